@@ -50,14 +50,20 @@ np.seterr(all='ignore')
 @contextlib.contextmanager
 def installed(fs):
     """While active, every way the code under test may reach a file by name - open / io.open (so pathlib too),
-    os.path.isfile / exists / getsize, os.stat - is answered by `fs` for simulated names (relative names and names under
+    os.path.isfile / exists / getsize / realpath / islink, os.stat - is answered by `fs` for simulated names (relative names and names under
     simfs.SIM_ROOT) and by the real file system for everything else.  The seam is process-wide on purpose: it does not
     depend on which nptdms module opens files or how."""
     import builtins
     import io
     from . import simfs
     saved = (builtins.open, io.open, os.path.isfile, os.path.exists, os.path.getsize, os.stat, os.path.getmtime,
-             os.fsync, os.fstat)
+             os.fsync, os.fstat, os.path.realpath, os.path.islink)
+
+    def p_realpath(p, *a, **kw):
+        return fs.realpath(p) if simfs.sim_name(p) is not None else saved[9](p, *a, **kw)
+
+    def p_islink(p):
+        return simfs.sim_name(p) in fs.links if simfs.sim_name(p) is not None else saved[10](p)
 
     def p_isfile(p):
         return fs.isfile(p) if simfs.sim_name(p) is not None else saved[2](p)
@@ -86,6 +92,7 @@ def installed(fs):
     os.path.isfile, os.path.exists, os.path.getsize, os.stat = p_isfile, p_exists, p_getsize, p_stat
     os.path.getmtime = p_getmtime
     os.fsync, os.fstat = p_fsync, p_fstat
+    os.path.realpath, os.path.islink = p_realpath, p_islink
     try:
         yield fs
     finally:
@@ -93,6 +100,7 @@ def installed(fs):
         os.path.isfile, os.path.exists, os.path.getsize, os.stat = saved[2:6]
         os.path.getmtime = saved[6]
         os.fsync, os.fstat = saved[7], saved[8]
+        os.path.realpath, os.path.islink = saved[9], saved[10]
 
 
 class _Sink(object):
